@@ -280,6 +280,9 @@ pub mod statement;
 
 pub(crate) mod utils;
 
+#[cfg(scylla_verif)]
+pub mod verif;
+
 pub(crate) mod parse_utils {
     pub(crate) use scylla_cql::utils::parse::{ParseErrorCause, ParseResult, ParserState};
 }
